@@ -1,5 +1,4 @@
 package main
 
 
-type HistCase struct{}
 type BkmCase struct{}
